@@ -88,6 +88,9 @@ type c09Case struct {
 	stale  bool
 	// company: another, valid declaration in the same source file, "before" or "after" the one under test
 	company string
+	// prev: the stale output is what the generator itself produced for this (valid) declaration before the source was
+	// edited into the one under test - not a hand-written leftover
+	prev *decl.Decl
 	ref    *decl.Ref
 	exit   int
 	stderr string
@@ -112,6 +115,10 @@ func runC09(args []string) {
 			cases = append(cases, &c09Case{d: p.D, kind: p.Kind, where: p.Where})
 			if tier == "thorough" || i%3 == 0 {
 				cases = append(cases, &c09Case{d: p.D, kind: p.Kind, where: p.Where, stale: true})
+			}
+			if tier == "thorough" || i%3 == 1 {
+				// history: generate the valid declaration, then edit the source into the refused one and run again
+				cases = append(cases, &c09Case{d: p.D, kind: p.Kind, where: p.Where, stale: true, prev: b})
 			}
 			// the refused declaration shares its file with a valid one: the file's output must still not appear
 			if tier == "thorough" || i%2 == 1 {
@@ -145,7 +152,20 @@ func runC09(args []string) {
 		}
 		_ = os.WriteFile(filepath.Join(c.dir, "p.go"), []byte(src), 0o644)
 		band := filepath.Join(c.dir, "p_band.go")
-		if c.stale {
+		if c.stale && c.prev != nil {
+			_ = os.WriteFile(filepath.Join(c.dir, "p.go"), []byte(c.prev.Emit(pkg)), 0o644)
+			if code, _ := env.RunKessoku(c.dir, "-l", "error", "p.go"); code != 0 {
+				c.prev = nil // the base itself is not accepted: fall back to the hand-written leftover
+			}
+			_ = os.WriteFile(filepath.Join(c.dir, "p.go"), []byte(src), 0o644)
+		}
+		if c.stale && c.prev != nil {
+			b, _ := os.ReadFile(band)
+			c.before = string(b)
+			old := time.Now().Add(-48 * time.Hour).Truncate(time.Second)
+			_ = os.Chtimes(band, old, old)
+			c.mtime = old
+		} else if c.stale {
 			c.before = "// Code generated by kessoku. DO NOT EDIT.\n\npackage " + pkg + "\n\n// stale output of an earlier run\nfunc StaleLeftover() int { return 42 }\n"
 			_ = os.WriteFile(band, []byte(c.before), 0o644)
 			old := time.Now().Add(-48 * time.Hour).Truncate(time.Second)
@@ -165,6 +185,9 @@ func runC09(args []string) {
 		after, err := os.ReadFile(band)
 		exists := err == nil
 		witness := c.d.Spec() + " {" + c.where + fmt.Sprintf("; stale output present=%v}", c.stale)
+		if c.prev != nil {
+			witness = c.d.Spec() + " {" + c.where + "; the output of the generator's own earlier run on the valid declaration is present}"
+		}
 		if c.company != "" {
 			witness = c.d.Spec() + " {" + c.where + fmt.Sprintf("; stale output present=%v; a valid declaration %s it in the same file}", c.stale, c.company)
 		}
@@ -257,7 +280,7 @@ func runC09(args []string) {
 	rc.Coverage = map[string]any{
 		"evaluations":         len(cases),
 		"distinct_nontrivial": len(distinct),
-		"rule":                "valid declarations (n<=3 providers quick / <=4 thorough; plain, Bind, multi-value, Struct, Value, value-type and argument variants) and, for each, EVERY single planted defect: each back edge u->v with v depending on u (through each type v supplies: results, bound interface, expanded fields) incl. self loops; each duplicate supplier (second provider declared first/last, field type already supplied, two fields of one type); orphan Struct[S]/Struct[*S] with and without a consumer of its field; with and without a stale output file; alone in its source file, or with a valid declaration before / after it in the same file (the file's output must still not be created or modified). Real CLI on every case; distinct = distinct (defect kind, declared graph) pairs the reference classifies unambiguously",
+		"rule":                "valid declarations (n<=3 providers quick / <=4 thorough; plain, Bind, multi-value, Struct, Value, value-type and argument variants) and, for each, EVERY single planted defect: each back edge u->v with v depending on u (through each type v supplies: results, bound interface, expanded fields) incl. self loops; each duplicate supplier (second provider declared first/last, field type already supplied, two fields of one type); orphan Struct[S]/Struct[*S] with and without a consumer of its field; with and without a stale output file (a hand-written leftover, or the generator's own output for the valid declaration before the source was edited into the refused one); alone in its source file, or with a valid declaration before / after it in the same file (the file's output must still not be created or modified). Real CLI on every case; distinct = distinct (defect kind, declared graph) pairs the reference classifies unambiguously",
 		"samples":             samples,
 		"exhaustive":          true,
 		"bases":               len(bases),
